@@ -264,3 +264,13 @@ prop(
          "with concurrency 1-16 whose first iterations only return once `concurrency` of them overlap (rendezvous, 3s timeout = not all workers usable); oracle = extracted predicate c04_ok; non-trivial = rendezvous runs; distinct = distinct observations",
     assumptions=["in the model worker i owns handle i by construction; handle identity in the code is observed, not modelled", "file mode is outside the statement (consecutive stages' pools may overlap)"],
 )
+
+prop(
+    id="C09",
+    stages=[dict(name="c09", pkg="c09", test="TestC09", access=[RUN_ACCESS, WORKERS_ACCESS], timeout_quick=300, timeout_thorough=3000)],
+    rule="real runs of a trigger built with api.NewIterationWorker around a logging rate function (monotonic time, returned value): intervals 5-300ms, with and without distribution (then the 100ms sub-tick function is the one logged), "
+         "constant / growing / irregular profiles, half of the runs under scheduling noise from busy goroutines; oracle = extracted predicate c09_ok: the k-th evaluation never happens before t0 + k*interval (one-sided, load-insensitive), "
+         "and with plenty of instant workers started + dropped = sum of the evaluated values minus at most the last one; harness-side: the first evaluation happens right after setup (interval >= 100ms); non-trivial = run with >= 3 evaluations; distinct = distinct logs",
+    assumptions=["time.Ticker never delivers a tick early and its channel buffers at most one tick (hypothesis ticks_not_early of C09_cadence)",
+                 "monotonic clock readings of the harness; the last evaluated value may be refused by the pool because triggering had stopped"],
+)
